@@ -4,7 +4,7 @@ from ..oracles import c08
 MODELS = ["Aero"]
 STREAMS = [aero_streams.stream_points_and_mesh, aero_streams.stream_eval_mtx]
 ORACLES = [c08.oracle_images, c08.oracle_rejection]
-UNPROVED = ["far-field limit |AIC_ground - AIC_free| <= C / h^2 (decay bound of the kernel) is validated by the oracle's convergence table only",
+UNPROVED = ["far-field limit: every image segment / wake leg contributes at most 1 / (2 pi distance) (C08_image_segment_induction_bounded_by_inverse_distance, C08_image_wake_leg_...: proved, so the image block tends to zero); the sharper rate C / h^2 of the whole image ring (cancellation between its four sides) and the passage from the influence matrix to the solved coefficients (continuity of the linear solve) are validated by the oracle's convergence table",
             "the decision rule 'ground effect without symmetry is rejected' is covered by the oracle here and modelled under C20"]
 ASSUMPTIONS = ["zero sideslip (the ground plane is parallel to the angle-of-attack direction only)",
                "streams: VortexMesh (with ground images, left/right halves) and EvalVelMtx (image block, strength -1) models executed against the code"]
